@@ -1,6 +1,9 @@
 import BpModel.All
 import BpModel.Json
 import BpProofs.Json
+import BpProofs.JsonRtMain
+import BpProofs.JsonRtInst
+import BpProofs.JsonText
 /-
   C04 — JSON / dict round trip.
 
@@ -28,9 +31,38 @@ import BpProofs.Json
       default-valued oneof / optional members and nested / repeated / map messages;
     * the excluded regions: one `decide`d negation witness each (D15, D17 ×6, NaN payload),
       replayed on the real code by harness/props/c04.py.
-  NOT PROVED in general: the step from "same constructor arguments" to `m' ≈ m ∧ same bytes`
-  for all flat messages (it is evaluated on examples and checked on every generated case by
-  the correspondence + oracle), and the induction over nested messages.
+    * message level, ALL messages in the guarded domain, flat AND nested (`roundtrip_flat`,
+      `roundtrip_nested`; proofs in BpProofs/JsonEqv.lean, JsonRt.lean, JsonRtSlot.lean,
+      JsonRtMain.lean): the class form `Cls.from_dict(m.to_dict(casing))` returns a message `m'` with
+      `m ≈ m'` and `bytes(m') == bytes(m)`.  `≈` is `DEqv` (BpProofs/JsonEqv.lean): same class, same
+      `_unknown_fields`, same oneof selection, `_serialized_on_wire` True at every nesting level,
+      and slot by slot either related values (identical leaves, item-wise lists / dict values,
+      sub-messages recursively; a singular sub-message only if it is present) or — where `m`
+      holds a default-valued, unselected, non-optional, not-on-the-wire value — PLACEHOLDER,
+      which reads as that default (`deqv_state`; `deqv_dumpVal`: `≈` implies equal bytes, with
+      no typing hypothesis).  The induction is structural over `Val` / `List Val`: singular /
+      proto3-optional / oneof-member sub-messages, repeated messages, `map<string, Msg>`.
+      GUARDS, all decidable.  On the SCHEMA: `jsonOk S E cs` (D15 `namesOk`; D17 `fieldJsonOk`:
+      string map keys only, no bytes / Timestamp / Duration map values, no BytesValue wrapper, no
+      repeated wrappers; `enumOk`) and `groupsOk S` (a field's oneof index is a group of its
+      class).  On the VALUE: `wellTyped S m` (typed slots, no unknown fields, canonical NaN,
+      unselected members unset, an absent plain sub-message equals a fresh one) and `selOk S m`
+      (a oneof selection names a member of that group: the part of the oneof invariant
+      `wellTyped` does not state; without it `to_dict` writes nothing for the group and the
+      rebuilt message has no selection: `selOk_needed_witness`);
+    * the instance form and the JSON-text path (`roundtrip_all`, the FULL STATEMENT above under the
+      guards): `to_dict(m)` is JSON serialisable (`isJson`), `json.loads(json.dumps(d)) == d`
+      (`jsonText d = some d`: string keys only, no raw leaf, canonical NaN), and all four
+      combinations {class form, instance form on a fresh instance} × {dict, JSON text} return the
+      SAME message `m'` with `m ≈ m'` and equal bytes (BpProofs/JsonRtInst.lean, JsonText.lean);
+    * NEW excluded region, carved out by the VALUE guard `wellTyped` ("an absent plain sub-message
+      equals a fresh one"), with a `decide`d negation witness (`unmarked_submessage_witness`): a
+      plain (not optional, not oneof) sub-message that is NOT `_serialized_on_wire` but differs
+      from `Sub()` — reached by `m.a.b.x = 1` (only `b` is marked) or `m.a.items.append(1)` —
+      is encoded by `bytes(m)` (the test there is `value != default`) but left out by `to_dict`
+      (the test there is `value._serialized_on_wire`): the dict round trip loses it.
+  NOT PROVED: nothing of the full statement inside the guards.  Outside: the instance form on a
+  NON-fresh instance (merge semantics) is not stated; `include_default_values=True` is not covered.
 -/
 namespace Bp.C04
 open Bp
@@ -212,4 +244,167 @@ theorem d27_fixed_example :
     toDict Sots [] .camel false (.msg 0 [.ts 0] true [] []) = .obj [.str [111, 116, 115]] [.tsStr 0] :=
   ⟨by rfl, by rfl⟩
 
+/-! ## the round trip for all (flat and nested) messages of the guarded domain -/
+
+/-- what `m ≈ m'` (`DEqv`, BpProofs/JsonEqv.lean) says at the top level: same class,
+    `_serialized_on_wire` set, same `_unknown_fields`, same oneof selection, slots related one by
+    one (`SlotsDEqv`: related values, or default-valued-and-absent vs PLACEHOLDER) -/
+theorem deqv_state (S : Schema) (c : Nat) (sl : List Val) (ow : Bool) (unk : Bytes) (cur : List (Option Nat)) (m' : Val)
+    (h : DEqv S (.msg c sl ow unk cur) m') :
+    ∃ sl', m' = .msg c sl' true unk cur ∧ SlotsDEqv S (fieldsOf S c) cur 0 sl sl' := by
+  cases h with
+  | atom _ ha => simp [dAtom] at ha
+  | msg _ _ sl' _ _ _ hs => exact ⟨sl', rfl, hs⟩
+
+/-- `≈` implies equal bytes (no typing hypothesis needed) -/
+theorem deqv_bytes (S : Schema) (m m' : Val) (h : DEqv S m m') : dumpVal S m' = dumpVal S m :=
+  deqv_dumpVal S m m' h
+
+/-- **C04, class form, nested messages** (message-typed singular / proto3-optional / oneof-member
+    / repeated fields and `map<string, Msg>`, to any depth, recursive classes included):
+    `Cls.from_dict(m.to_dict(casing))` returns a message equivalent to `m` that encodes to the
+    same bytes.  Guards: see the header. -/
+theorem roundtrip_nested (S : Schema) (E : Enums) (cs : KeyCase) (c : Nat) (sl : List Val) (ow : Bool) (unk : Bytes)
+    (cur : List (Option Nat))
+    (hjson : jsonOk S E cs = true) (hgroups : groupsOk S = true)
+    (hwt : wellTyped S (.msg c sl ow unk cur) = true) (hsel : selOk S (.msg c sl ow unk cur) = true) :
+    ∃ m', fromDictC S E c (toDict S E cs false (.msg c sl ow unk cur)) = .ok m' ∧
+      DEqv S (.msg c sl ow unk cur) m' ∧ dumpVal S m' = dumpVal S (.msg c sl ow unk cur) :=
+  ⟨_, roundtrip_class S E cs ⟨hjson, hgroups⟩ c sl ow unk cur hwt hsel⟩
+
+/-- **C04, class form, flat messages**: the special case in which no field is message-typed (the
+    statement needs no flatness hypothesis: `flatSlots` of `from_dict_flat_partial` is implied by
+    `wellTyped` + `jsonOk` there).  The rebuilt message is explicit: `jrt` (BpProofs/JsonRt.lean). -/
+theorem roundtrip_flat (S : Schema) (E : Enums) (cs : KeyCase) (c : Nat) (sl : List Val) (ow : Bool) (unk : Bytes)
+    (cur : List (Option Nat))
+    (hjson : jsonOk S E cs = true) (hgroups : groupsOk S = true)
+    (hwt : wellTyped S (.msg c sl ow unk cur) = true) (hsel : selOk S (.msg c sl ow unk cur) = true) :
+    fromDictC S E c (toDict S E cs false (.msg c sl ow unk cur))
+      = .ok (.msg c (jrtSlots S E cs (fieldsOf S c) cur 0 sl) true unk cur) ∧
+    DEqv S (.msg c sl ow unk cur) (.msg c (jrtSlots S E cs (fieldsOf S c) cur 0 sl) true unk cur) ∧
+    dumpVal S (.msg c (jrtSlots S E cs (fieldsOf S c) cur 0 sl) true unk cur) = dumpVal S (.msg c sl ow unk cur) := by
+  have := roundtrip_class S E cs ⟨hjson, hgroups⟩ c sl ow unk cur hwt hsel
+  rw [jrt_msg] at this
+  exact this
+
+/-! ### non-vacuity: a recursive class with a oneof, an optional sub-message, repeated and map messages -/
+
+/-- `message Node { oneof kind { int32 leaf_val = 1; Node child = 2; } optional Node opt_child = 3;
+    repeated Node kids = 4; map<string, Node> by_name = 5; string label = 6; }` -/
+def S3 : Schema := [{ fields := [
+    { name := "leaf_val", num := 1, ty := .int32, group := some 0 },
+    { name := "child", num := 2, ty := .message, kind := .user 0, group := some 0 },
+    { name := "opt_child", num := 3, ty := .message, kind := .user 0, optional := true },
+    { name := "kids", num := 4, ty := .message, kind := .user 0, repeated := true },
+    { name := "by_name", num := 5, ty := .map, mapK := .string, mapV := .message, mapVKind := .user 0 },
+    { name := "label", num := 6, ty := .string }], nGroups := 1 }]
+/-- `Node(leaf_val=n)`: for n = 0 a oneof member set to its default -/
+def leafN (n : Int) : Val := .msg 0 [.int n, .ph, .none, .ph, .ph, .ph] true [] [some 0]
+/-- `Node()` -/
+def emptyN : Val := .msg 0 [.ph, .ph, .none, .ph, .ph, .ph] false [] [Option.none]
+/-- `Node(child=Node(leaf_val=0), opt_child=Node(), kids=[Node(leaf_val=7), Node()],
+    by_name={"k": Node(leaf_val=9)}, label="x")` -/
+def m3 : Val :=
+  .msg 0 [.ph, leafN 0, emptyN, .list [leafN 7, emptyN], .dict [.str [107]] [leafN 9], .str [120]] true [] [some 1]
+
+/-- the final theorem instantiated on a concrete nested message: all guards hold (by evaluation),
+    the bytes are real bytes (`dumpVal` succeeds), both casings -/
+theorem roundtrip_nested_instance :
+    (∃ m', fromDictC S3 [] 0 (toDict S3 [] .camel false m3) = .ok m' ∧ DEqv S3 m3 m' ∧ dumpVal S3 m' = dumpVal S3 m3) ∧
+    (∃ m', fromDictC S3 [] 0 (toDict S3 [] .snake false m3) = .ok m' ∧ DEqv S3 m3 m' ∧ dumpVal S3 m' = dumpVal S3 m3) ∧
+    (dumpVal S3 m3).isOk = true :=
+  ⟨roundtrip_nested S3 [] .camel 0 _ _ _ _ (by decide) (by decide) (by decide) (by decide),
+   roundtrip_nested S3 [] .snake 0 _ _ _ _ (by decide) (by decide) (by decide) (by decide), by decide⟩
+
+/-- the rebuilt message, evaluated: the default-valued oneof member `leaf_val = 0` of the child stays
+    selected, the optional default sub-message stays set, the empty repeated item and the map
+    value are there, every nested message is `_serialized_on_wire` -/
+theorem roundtrip_nested_instance_value :
+    fromDictC S3 [] 0 (toDict S3 [] .camel false m3) =
+      .ok (.msg 0 [.ph, leafN 0, .msg 0 [.ph, .ph, .none, .ph, .ph, .ph] true [] [Option.none],
+            .list [leafN 7, .msg 0 [.ph, .ph, .none, .ph, .ph, .ph] true [] [Option.none]],
+            .dict [.str [107]] [leafN 9], .str [120]] true [] [some 1]) := by rfl
+
+/-- why `selOk` is a guard: a selection that names no member of the group (a state the
+    constructor and `__setattr__` never produce) is `wellTyped`, `to_dict` writes nothing for the
+    group, and the rebuilt message has no selection: same bytes, different `which_one_of` -/
+theorem selOk_needed_witness :
+    wellTyped S3 (.msg 0 [.ph, .ph, .none, .ph, .ph, .ph] true [] [some 5]) = true ∧
+    selOk S3 (.msg 0 [.ph, .ph, .none, .ph, .ph, .ph] true [] [some 5]) = false ∧
+    fromDictC S3 [] 0 (toDict S3 [] .camel false (.msg 0 [.ph, .ph, .none, .ph, .ph, .ph] true [] [some 5]))
+      = .ok (.msg 0 [.ph, .ph, .none, .ph, .ph, .ph] true [] [Option.none]) :=
+  ⟨by decide, by decide, by rfl⟩
+
+/-! ## both forms, both paths -/
+
+/-- **C04, the full statement under the guards**: `d = m.to_dict(casing)` is JSON serialisable,
+    `json.loads(json.dumps(d))` is `d`, and `Cls.from_dict`, `Cls().from_dict`, `Cls.from_json`-style
+    and `Cls().from_json`-style paths all return one and the same message `m'`, which is
+    equivalent to `m` (`DEqv`) and encodes to the same bytes -/
+theorem roundtrip_all (S : Schema) (E : Enums) (cs : KeyCase) (c : Nat) (sl : List Val) (ow : Bool) (unk : Bytes)
+    (cur : List (Option Nat))
+    (hjson : jsonOk S E cs = true) (hgroups : groupsOk S = true)
+    (hwt : wellTyped S (.msg c sl ow unk cur) = true) (hsel : selOk S (.msg c sl ow unk cur) = true) :
+    isJson (toDict S E cs false (.msg c sl ow unk cur)) = true ∧
+    jsonText (toDict S E cs false (.msg c sl ow unk cur)) = some (toDict S E cs false (.msg c sl ow unk cur)) ∧
+    ∃ m', fromDictC S E c (toDict S E cs false (.msg c sl ow unk cur)) = .ok m' ∧
+      fromDictI S E (fresh S c) (toDict S E cs false (.msg c sl ow unk cur)) = .ok m' ∧
+      (jsonText (toDict S E cs false (.msg c sl ow unk cur))).map (fromDictC S E c) = some (.ok m') ∧
+      (jsonText (toDict S E cs false (.msg c sl ow unk cur))).map (fromDictI S E (fresh S c)) = some (.ok m') ∧
+      DEqv S (.msg c sl ow unk cur) m' ∧ dumpVal S m' = dumpVal S (.msg c sl ow unk cur) := by
+  have hS : SchemaOk S E cs := ⟨hjson, hgroups⟩
+  obtain ⟨t1, t2⟩ := toDict_text S E cs hS c sl ow unk cur hwt
+  obtain ⟨a, b, d⟩ := roundtrip_class S E cs hS c sl ow unk cur hwt hsel
+  have i := roundtrip_instance S E cs hS c sl ow unk cur hwt hsel
+  refine ⟨t1, t2, _, a, i, ?_, ?_, b, d⟩
+  · rw [t2, Option.map_some, a]
+  · rw [t2, Option.map_some, i]
+
+/-- `roundtrip_all` on the concrete nested message `m3` (recursive class, oneof, optional
+    sub-message set to its default, repeated sub-messages, `map<string, Node>`) -/
+theorem roundtrip_all_instance :
+    isJson (toDict S3 [] .camel false m3) = true ∧
+    ∃ m', fromDictC S3 [] 0 (toDict S3 [] .camel false m3) = .ok m' ∧
+      fromDictI S3 [] (fresh S3 0) (toDict S3 [] .camel false m3) = .ok m' ∧
+      (jsonText (toDict S3 [] .camel false m3)).map (fromDictI S3 [] (fresh S3 0)) = some (.ok m') ∧
+      DEqv S3 m3 m' ∧ dumpVal S3 m' = dumpVal S3 m3 := by
+  obtain ⟨t1, _, m', a, i, _, ji, b, d⟩ :=
+    roundtrip_all S3 [] .camel 0 _ _ _ _ (by decide) (by decide) (show wellTyped S3 m3 = true by decide) (by decide)
+  exact ⟨t1, m', a, i, ji, b, d⟩
+
+/-! ## a region outside the guards: sub-messages that are set but not marked -/
+
+def Sdeep : Schema := [
+  { fields := [{ name := "a", num := 1, ty := .message, kind := .user 1 }] },
+  { fields := [{ name := "b", num := 1, ty := .message, kind := .user 2 },
+               { name := "items", num := 2, ty := .int32, repeated := true }] },
+  { fields := [{ name := "x", num := 1, ty := .int32 }] }]
+/-- `m = Outer(); m.a.b.x = 1`: `b` is `_serialized_on_wire` (its `__setattr__` ran), `a` is not
+    (it was only materialised by `getattr`) -/
+def mDeep : Val := .msg 0 [.msg 1 [.msg 2 [.int 1] true [] [], .ph] false [] []] false [] []
+/-- `m = Outer(); m.a.items.append(1)` -/
+def mAppend : Val := .msg 0 [.msg 1 [.ph, .list [.int 1]] false [] []] false [] []
+
+/-- outside `wellTyped` (a VALUE guard: "an absent plain sub-message equals a fresh one") the
+    statement is false of the model: `bytes(m)` encodes the sub-message (`value != default`),
+    `to_dict` leaves it out (`value._serialized_on_wire` is False), the round trip loses it.
+    All schema guards hold.  To be replayed on the real code. -/
+theorem unmarked_submessage_witness :
+    jsonOk Sdeep [] .camel = true ∧ groupsOk Sdeep = true ∧ selOk Sdeep mDeep = true ∧
+    wellTyped Sdeep mDeep = false ∧ wellTyped Sdeep mAppend = false ∧
+    dumpVal Sdeep mDeep = .ok [10, 4, 10, 2, 8, 1] ∧
+    toDict Sdeep [] .camel false mDeep = .obj [] [] ∧
+    (fromDictC Sdeep [] 0 (toDict Sdeep [] .camel false mDeep)).bind (dumpVal Sdeep) = .ok [] ∧
+    dumpVal Sdeep mAppend = .ok [10, 3, 18, 1, 1] ∧
+    (fromDictC Sdeep [] 0 (toDict Sdeep [] .camel false mAppend)).bind (dumpVal Sdeep) = .ok [] :=
+  ⟨by decide, by decide, by decide, by decide, by decide, by decide, by rfl, by decide, by decide, by decide⟩
+
 end Bp.C04
+
+#print axioms Bp.C04.roundtrip_all
+#print axioms Bp.C04.roundtrip_all_instance
+#print axioms Bp.C04.unmarked_submessage_witness
+#print axioms Bp.C04.roundtrip_nested
+#print axioms Bp.C04.roundtrip_flat
+#print axioms Bp.C04.roundtrip_nested_instance
+#print axioms Bp.C04.deqv_bytes
